@@ -21,6 +21,7 @@ INVARIANTS
   CanonicalIsPermitted
   ReverseIsExactReverse
   OpenCasesOnly
+  MatrixFormAgrees
   NatTransitive
   ArgTransitive
   LocationAlwaysTransitive
